@@ -76,6 +76,8 @@ def check_enum(case):
 
 
 def enum(tier):
+    for w, s, n in ((256, 256, 600), (257, 257, 600), (300, 300, 700), (300, 100, 650), (257, 300, 700)):
+        yield {'w': w, 's': s, 'n': n}       # sizes beyond CPython's small-int cache
     wm, nm = (12, 120) if tier == 'thorough' else (8, 40)
     for w in range(1, wm + 1):
         for s in range(1, wm + 1):
